@@ -247,7 +247,7 @@ def coreobj_pipeline(prop, tier, purpose=None):
     violations = []
     nmint = 0
     with open(trace) as f:
-        lines = f.read().splitlines()
+        lines = f.read().split("\n")
     for l in lines:
         nmint += l.count('"op":"mint"')
     for b in bad:
@@ -296,7 +296,7 @@ def builder_pipeline(prop, tier, conf, purpose=None):
     violations = []
     other = 0
     if bad:
-        lines = open(trace).read().splitlines()
+        lines = open(trace).read().split("\n")
         for b in bad:
             rec = json.loads(lines[b["line"] - 1])
             mine = any(w in b["why"] for w in conf["whys"])
@@ -492,8 +492,8 @@ def parser_pipeline(prop, tier, fam, whys, sweep=0, cfgname=None, need=('"res":"
     violations = []
     other = 0
     if bad:
-        lines = open(trace).read().splitlines()
-        conc = open(trace + ".conc").read().splitlines()
+        lines = open(trace).read().split("\n")
+        conc = open(trace + ".conc").read().split("\n")
         for b in bad:
             if not any(w in b["why"] for w in whys):
                 other += 1
@@ -505,7 +505,7 @@ def parser_pipeline(prop, tier, fam, whys, sweep=0, cfgname=None, need=('"res":"
                 cc = json.loads(conc[b["line"] - 1])
             except Exception:
                 cc = None
-            violations.append({"props": [prop.rstrip("pt")], "what": "%s (behaviour %s, call %d)" % (b["why"], b["id"], b["step"]),
+            violations.append({"props": [prop[:3]], "what": "%s (behaviour %s, call %d)" % (b["why"], b["id"], b["step"]),
                                "replay": {"kind": "parser-trace", "id": b["id"], "pr": rec["pr"], "layer": rec["layer"],
                                           "failing_call": b["step"], "why": b["why"], "behaviour": rec, "concrete_tokens": cc,
                                           "reproduce": "pv " + " ".join(args) + " ; validate with spec/trace/ParserTrace.tla"}})
@@ -561,6 +561,14 @@ def check_parser_family(prop, tier):
         r["bad"] += r2["bad"]
         r["samples"] = r["samples"][:2] + r2["samples"][:1]
         r["twall"] += r2["twall"]
+    if conf["fam"] == "c15":
+        # PasetoParser::check_claim with custom claims (its own code path to the generic parser)
+        r3 = parser_pipeline(prop + "pc", tier, "c15pc", conf["whys"], cfgname="c15pc")
+        for k in ("states", "transitions", "nbeh", "n", "nparse", "other"):
+            r[k] += r3[k]
+        r["violations"] += r3["violations"]
+        r["bad"] += r3["bad"]
+        r["twall"] += r3["twall"]
     if conf["fam"] == "c16":
         # one parser object, the same token presented again (other key, after a footer change, after a
         # tampered copy): every history of up to 3 parses over a small token table, both parser layers
